@@ -57,6 +57,10 @@ pub fn check_text(pic: &str, text: &str) -> Result<u32, String> {
         ad::format_lazy(&lv, pic).map_err(|p| format!("{} {}: format({pic:?}) into a String sink: {p}", v.kind.name(), v.raw))?;
         ad::format_direct(&lv, pic).map_err(|p| format!("{} {}: Formatter::format({pic:?}): {p}", v.kind.name(), v.raw))?;
         calls += 2;
+        if pic.len() > 100 {
+            ad::format_lazy_specs(&lv, pic).map_err(|p| format!("{} {}: Display with a width/precision spec, picture {pic:?}: {p}", v.kind.name(), v.raw))?;
+            calls += 8;
+        }
     }
     Ok(calls)
 }
@@ -77,7 +81,7 @@ pub fn eval(case: &Case) -> Verdict {
             let v = Val::new(Kind::from_index(case.i[0] as usize), case.i[1]);
             match ad::to_lib(&v) {
                 Err(e) => Err(format!("value rejected: {e:?}")),
-                Ok(lv) => ad::format_direct(&lv, &case.s[0]).and_then(|_| ad::format_lazy(&lv, &case.s[0])).map(|_| ()),
+                Ok(lv) => ad::format_direct(&lv, &case.s[0]).and_then(|_| ad::format_lazy(&lv, &case.s[0])).and_then(|_| ad::format_lazy_specs(&lv, &case.s[0])).map(|_| ()),
             }
         }
         "op" => {
@@ -238,6 +242,9 @@ pub fn run(ctx: &Ctx) -> (Stats, Report) {
                 _ => "2021-12-31 23:59:59.5 PM Friday".to_string(),
             };
             ad::format_lazy(&lv, &pic).map_err(|p| format!("{} {}: format({pic:?}) into a String sink: {p}", v.kind.name(), v.raw))?;
+            // the Display value written with width / precision / alignment specs
+            ad::format_lazy_specs(&lv, &pic).map_err(|p| format!("{} {}: write!(\"{{:<spec>}}\", value.format({pic:?})) with a width/precision spec: {p}", v.kind.name(), v.raw))?;
+            st.class("display-with-format-specs");
             let text = mutate_text(&base, muts);
             let n = check_text(&pic, &text)?;
             st.evaluations += n as u64;
@@ -361,6 +368,10 @@ pub fn run(ctx: &Ctx) -> (Stats, Report) {
                 };
                 for pic in pref.iter() {
                     st.evaluations += 2;
+                    if let Err(p) = ad::format_lazy_specs(&lv, pic) {
+                        st.fail(k, Case::new(P, "format", vec![v.kind.index() as i128, v.raw], vec![pic.clone()]), format!("{} {}: Display with a width/precision spec, picture {pic:?}: {p}", v.kind.name(), v.raw));
+                        return;
+                    }
                     for r in [ad::format_direct(&lv, pic), ad::format_lazy(&lv, pic)] {
                         if let Err(p) = r {
                             st.fail(k, Case::new(P, "format", vec![v.kind.index() as i128, v.raw], vec![pic.clone()]), format!("{} {}: formatting with picture {pic:?}: {p}", v.kind.name(), v.raw));
